@@ -246,6 +246,43 @@ def run(seed):
             ok = False
         expect(f"TraceMux {name}", ok, False)
 
+    # ---- TraceMuxWrite (the write half under back-pressure: mux_drv's fifth argument)
+    wtrace = os.path.join(d, "muxw.ndjson")
+    common.run_bin("mux_drv", [os.path.join(d, "mux2.ndjson"), os.path.join(d, "mux2.json"), seed + 5, "-", wtrace], timeout=600)
+    evs = _load(wtrace)
+    expect("TraceMuxWrite clean", c14._validate_write(wtrace)[0] is None, True)
+
+    def w_hole(m):
+        g = [e for e in m if e["e"] == "got"]
+        if not g or len(g[0]["cells"]) < 8:
+            return False
+        del g[0]["cells"][len(g[0]["cells"]) // 2]          # one cell of the stream is missing
+        return True
+
+    def w_dup(m):
+        g = [e for e in m if e["e"] == "got"]
+        if not g or len(g[0]["cells"]) < 8:
+            return False
+        k = len(g[0]["cells"]) // 3
+        g[0]["cells"].insert(k, g[0]["cells"][k])             # one cell twice
+        return True
+
+    def w_ok(m):
+        w = [e for e in m if e["e"] == "w" and not e["ok"] and e["n"] >= 2]
+        if not w:
+            return False
+        w[0]["ok"] = True                                     # a write that gave up is recorded as completed
+        return True
+
+    for name, m in _generic(evs, [("a cell missing from the stream", w_hole), ("a cell delivered twice", w_dup), ("a failed write recorded as completed", w_ok)]):
+        p = os.path.join(d, "muxw_mut.ndjson")
+        _save(p, m)
+        try:
+            ok = c14._validate_write(p)[0] is None
+        except common.ToolError:
+            ok = False
+        expect(f"TraceMuxWrite {name}", ok, False)
+
     # ---- TraceEpochs
     trace = os.path.join(d, "epochs.ndjson")
     common.run_bin("epoch_drv", [trace, os.path.join(d, "epochs.json"), seed + 6, 160, 3, 3], timeout=600)
